@@ -1,14 +1,342 @@
-"""C10: structural clauses (see DESIGN.md section 4)."""
+"""C10 slicing policies / token chunks: plumbing (G1/G5), enums vs argparse choices (G8),
+position kinds (G14), containment/overlap predicates (G12), driver pairing (G16), ranks (G19),
+return arity (G2)."""
 from __future__ import annotations
 
+import ast
+from typing import Dict, List, Optional, Set, Tuple
+
+from rules import enum as R_enum
 from rules import fwd as R_fwd
+from rules.rank import analyse
+from sa.astutil import call_name, guards_of, kwarg, parent_map, u
+from sa.defuse import ReachingDefs
+from sa.model import AnalysisError, own_calls, own_nodes
+from sa.resolve import bind_args
 from .common import Ctx, plumbing
+
+MOD = "_feats"
+
+
+def _col_role(e: ast.AST, refs_names: Set[str], slices_name: str) -> Optional[str]:
+    """Role of a column selector: slice_start/slice_end/tok_start/tok_end."""
+    if not (isinstance(e, ast.Subscript) and isinstance(e.value, ast.Name)):
+        return None
+    sl = e.slice
+    items = list(sl.elts) if isinstance(sl, ast.Tuple) else [sl]
+    if not items or not (isinstance(items[0], ast.Constant) and items[0].value is Ellipsis):
+        return None
+    last = items[-1]
+    col = None
+    if isinstance(last, ast.Constant) and isinstance(last.value, int):
+        col = last.value
+    elif isinstance(last, ast.Slice):
+        lo = last.lower.value if isinstance(last.lower, ast.Constant) else (0 if last.lower is None else None)
+        hi = last.upper.value if isinstance(last.upper, ast.Constant) else None
+        if lo is not None and last.upper is not None and hi == lo + 1:
+            col = lo
+        elif lo is not None and last.upper is None:
+            col = ("from", lo)
+    base = e.value.id
+    if base == slices_name:
+        if col == 0:
+            return "slice_start"
+        if col == 1 or col == ("from", 1):
+            return "slice_end"
+    if base in refs_names:
+        if col == 1:
+            return "tok_start"
+        if col == 2 or col == ("from", 2):
+            return "tok_end"
+        if col == ("from", 1):
+            return "tok_bounds"
+    return None
 
 
 def run(ctx: Ctx):
-    plumbing(ctx, 'S1')
-    R_fwd.g5_module_pairs(ctx.pkg, ctx.res, ctx.col, only=['chunk_token_sequences_by_slices', 'slice_spect_data'], clause='S1')
-    ctx.col.floor('g5_pairs', ctx.col.counts.get('g5_pairs', 0), 2)
-    R_fwd.g7_cli(ctx.pkg, ctx.res, ctx.col, clause='S1', only={'chunk_torch_spect_data_dir'})
-    ctx.col.floor('g7_commands', ctx.col.counts.get('g7_commands', 0), 1)
-    return dict(explanation='plumbing clauses only (work in progress)', decided=['S1'], not_decided=[])
+    col, pkg, res = ctx.col, ctx.pkg, ctx.res
+    rel = pkg.module(MOD).relname
+    sl = pkg.func(f"{MOD}::slice_spect_data")
+    ch = pkg.func(f"{MOD}::chunk_token_sequences_by_slices")
+
+    # ---- S1 Module <-> functional, driver construction ------------------------------------------
+    R_fwd.g5_module_pairs(pkg, res, col, only={"slice_spect_data", "chunk_token_sequences_by_slices"}, clause="S1")
+    col.floor("g5_pairs", col.counts.get("g5_pairs", 0), 2)
+    work = pkg.func("command_line::_chunk_torch_spect_data_dir_do_work")
+    ctor_want = {
+        "SliceSpectData": {"policy": "policy", "window_type": "window_type", "valid_only": "pad_mode is None",
+                           "lobe_size": "lobe_size"},
+        "ChunkBySlices": {"mode": "'constant' if pad_mode is None else pad_mode", "value": "pad_constant"},
+        "ChunkTokenSequencesBySlices": {"partial": "partial_tokens", "retain": "retain_token_boundaries"},
+    }
+    seen = set()
+    for c in own_calls(work.node):
+        cn = call_name(c)
+        if cn in ctor_want:
+            r = res.resolve_call(c, work)
+            if not r:
+                raise AnalysisError(f"C10: cannot resolve {cn} in the chunk worker")
+            b = bind_args(c, r[0][-1], r[1])
+            got = {p.name: u(a) for p, a, _ in b.pairs}
+            seen.add(cn)
+            for k, v in ctor_want[cn].items():
+                col.ob("G1", "S1", f"command_line.py::{work.qualname}::{cn}({k}<-{got.get(k)})", got.get(k) == v,
+                       f"{cn}.{k} receives `{got.get(k)}`, expected `{v}`", "command_line.py", c.lineno,
+                       sample=dict(ctor=cn, formal=k, arg=got.get(k)))
+    col.ob("G1", "S1", f"command_line.py::{work.qualname}::builds-all-three-modules", seen == set(ctor_want),
+           f"the chunk worker builds {sorted(seen)}", "command_line.py", work.line)
+    R_fwd.g7_cli(pkg, res, col, clause="S1", only={"chunk_torch_spect_data_dir"})
+    col.floor("g7_commands", col.counts.get("g7_commands", 0), 1)
+
+    # ---- S2 enums: Literal aliases == dispatch constants == argparse choices ----------------------
+    mi = pkg.module(MOD)
+    pol = R_enum.literal_members(pkg, res, mi, ast.Name(id="Policy", ctx=ast.Load()))
+    win = R_enum.literal_members(pkg, res, mi, ast.Name(id="WindowType", ctx=ast.Load()))
+    if pol is None or win is None:
+        raise AnalysisError("C10: Policy / WindowType Literal aliases not found")
+    R_enum.g8_dispatch(pkg, res, col, sl, "policy", "S2", members=pol, allow_else=0)
+    R_enum.g8_dispatch(pkg, res, col, sl, "window_type", "S2", members=win, allow_else=1)
+    cli = pkg.func("command_line::chunk_torch_spect_data_dir")
+    decl = {d: kw for d, kw, _, _ in R_fwd.cli_declared_options(pkg, res, cli)}
+    padm = R_enum.literal_members(pkg, res, pkg.module("_pad"), ast.Name(id="PadMode", ctx=ast.Load()))
+    for dest, members in (("policy", pol), ("window_type", win), ("pad_mode", padm)):
+        chs = decl.get(dest, {}).get("choices")
+        vals = [x.value for x in chs.elts] if isinstance(chs, (ast.List, ast.Tuple)) else None
+        col.ob("G8", "S2", f"command_line.py::chunk_torch_spect_data_dir::choices({dest})",
+               vals is not None and members is not None and set(vals) == set(members),
+               f"--{dest.replace('_', '-')} offers {vals}; the library accepts {members}", "command_line.py", cli.line,
+               sample=dict(dest=dest, choices=vals, literal=members))
+
+    # ---- S3 positions: slice-relative boundaries ---------------------------------------------------------
+    where = f"{rel}::{ch.qualname}"
+    pm = parent_map(ch.node)
+    rd = ReachingDefs(ch.node)
+    slices_name = ch.params[1].name
+    n_shift = 0
+    for n in own_nodes(ch.node):
+        tgt = val = op = None
+        if isinstance(n, ast.AugAssign):
+            tgt, val, op = n.target, n.value, type(n.op).__name__
+        elif isinstance(n, ast.Assign) and isinstance(n.value, ast.BinOp) and u(n.targets[0]) == u(n.value.left):
+            tgt, val, op = n.targets[0], n.value.right, type(n.value.op).__name__
+        if tgt is None or not isinstance(tgt, ast.Subscript):
+            continue
+        vd = rd.derives(val)
+        from_start = any(_col_role(x, set(), slices_name) == "slice_start" for e in vd.exprs for x in ast.walk(e))
+        if not from_start:
+            continue
+        sl_ = tgt.slice
+        items = list(sl_.elts) if isinstance(sl_, ast.Tuple) else [sl_]
+        last = items[-1]
+        bounds_cols = isinstance(last, ast.Slice) and isinstance(last.lower, ast.Constant) and last.lower.value == 1 \
+            and last.upper is None
+        gs = guards_of(pm, n)
+        under_not_retain = any((u(t) == "not retain" and polr) or (u(t) == "retain" and not polr) for t, polr in gs)
+        n_shift += 1
+        col.ob("G14", "S3", f"{where}::boundary-shift::columns+guard", bounds_cols and under_not_retain,
+               f"`{u(n)}` must shift exactly the start/end columns ([..., 1:]) and only when boundaries are not retained",
+               rel, n.lineno, sample=u(n))
+        col.ob("G14", "S3", f"{where}::boundary-shift::position-minus-position", op == "Sub",
+               f"`{u(n)}` combines a token boundary (a position) with the slice start (a position) by {op}: offsets "
+               f"from the slice start are position - position; position + position is ill-kinded (documented: "
+               f"'boundaries will become relative to the start frame of slices')", rel, n.lineno, sample=u(n))
+    col.floor("boundary_shift_sites", n_shift, 1)
+
+    # ---- S4 containment / overlap predicates ------------------------------------------------------------------
+    refs_names = {ch.params[0].name}
+    preds: Dict[bool, Set[Tuple[str, str, str]]] = {}
+    for n in own_nodes(ch.node):
+        if isinstance(n, ast.Assign) and isinstance(n.targets[0], ast.Name):
+            gs = guards_of(pm, n)
+            flag = [(t, polr) for t, polr in gs if u(t) in ("partial", "not partial")]
+            if not flag:
+                continue
+            t, polr = flag[-1]
+            is_partial = (u(t) == "partial") == polr
+            cs = set()
+            for x in ast.walk(n.value):
+                if isinstance(x, ast.Compare) and len(x.ops) == 1:
+                    a = _col_role(x.left, refs_names, slices_name)
+                    b = _col_role(x.comparators[0], refs_names, slices_name)
+                    o = {ast.Lt: "<", ast.LtE: "<=", ast.Gt: ">", ast.GtE: ">="}.get(type(x.ops[0]))
+                    if a and b and o:
+                        if a.startswith("tok"):
+                            a, b = b, a
+                            o = {"<": ">", "<=": ">=", ">": "<", ">=": "<="}[o]
+                        cs.add((a, o, b))
+            preds[is_partial] = cs
+    want = {True: {("slice_start", "<", "tok_end"), ("slice_end", ">", "tok_start")},
+            False: {("slice_start", "<=", "tok_start"), ("slice_end", ">=", "tok_end")}}
+    for k in (True, False):
+        col.ob("G12", "S4", f"{where}::{'overlap' if k else 'containment'}-predicate", preds.get(k) == want[k],
+               f"with partial={k} a token is kept iff {sorted(preds.get(k, []))}; documented: "
+               f"{'overlaps the slice' if k else 'is contained in the slice'} = {sorted(want[k])}", rel, ch.line,
+               sample=sorted(preds.get(k, [])))
+    # tokens with a missing (-1) or inverted boundary are never kept
+    base_ok = any(isinstance(n, ast.Assign) and ">= 0" in u(n.value) and ".all(2)" in u(n.value)
+                  and "refs[..., 2] >= refs[..., 1]" in u(n.value) for n in own_nodes(ch.node))
+    col.ob("G12", "S4", f"{where}::missing-boundaries-excluded", base_ok,
+           "tokens with a negative (missing) boundary or end < start are not excluded before the slice test", rel, ch.line)
+
+    # ---- S5 driver: names and row lengths ------------------------------------------------------------------------
+    wrel = "command_line.py"
+    wwhere = f"{wrel}::{work.qualname}"
+    rdw = ReachingDefs(work.node)
+    for n in own_nodes(work.node):
+        if isinstance(n, ast.Assign) and isinstance(n.targets[0], ast.Name) and n.targets[0].id.endswith("basename"):
+            col.ob("G4", "S5", f"{wwhere}::{n.targets[0].id}=prefix+id+suffix",
+                   isinstance(n.value, ast.BinOp) and u(n.value).startswith("file_prefix + ") and u(n.value).endswith(" + file_suffix"),
+                   f"`{u(n)}` is not file_prefix + <id> + file_suffix", wrel, n.lineno, sample=u(n))
+    # each saved row is cut with the length returned by the same chunker call
+    chunk_unpacks = {}
+    for d in rdw.defs:
+        if d.kind == "unpack" and isinstance(d.value, ast.Call) and isinstance(d.value.func, ast.Name) \
+                and d.value.func.id in ("chunker", "ref_chunker"):
+            chunk_unpacks.setdefault(id(d.stmt), {})[d.slot] = d
+    n_saves = 0
+    for c in own_calls(work.node):
+        if call_name(c) == "torch.save" and isinstance(c.args[0], ast.Subscript):
+            sub = c.args[0]
+            data = sub.value
+            items = sub.slice.elts if isinstance(sub.slice, ast.Tuple) else [sub.slice]
+            ln = None
+            for it in items:
+                if isinstance(it, ast.Slice) and it.upper is not None:
+                    ln = it.upper
+            if ln is None or not isinstance(data, ast.Name):
+                continue
+            n_saves += 1
+            ld = rdw.derives(ln)
+            dd = rdw.defs_of(data)
+            data_stmts = {id(d.stmt) for d in dd if d.kind == "unpack" and d.slot == (0,)}
+            len_stmts = {id(d.stmt) for d in ld.defs if d.kind == "unpack" and d.slot == (1,)}
+            same_kind_ok = bool(data_stmts & len_stmts)
+            if not same_kind_ok and data.id == "alis":
+                # alis is cut with the feats' lens, asserted equal to its own (lens == lens_)
+                same_kind_ok = any(isinstance(x, ast.Assert) and "lens" in u(x.test) for x in own_nodes(work.node)) \
+                    and "lens" in u(ln) and "ref" not in u(ln)
+            dirn = u(c.args[1].args[0]) if isinstance(c.args[1], ast.Call) and c.args[1].args else ""
+            kind = "feat" if data.id.startswith("feat") else ("ali" if data.id.startswith("ali") else "ref")
+            col.ob("G16", "S5", f"{wwhere}::save({data.id})[:len]->{dirn}", same_kind_ok and f"out_{kind}_dir" == dirn,
+                   f"`{u(c)[:100]}`: the chunk must be cut with the length returned by its own chunker call and "
+                   f"written to out_{kind}_dir", wrel, c.lineno, sample=u(c)[:120])
+    col.floor("driver_save_sites", n_saves, 3)
+    # the slicer is fed the tensor matching the policy
+    feeds = {}
+    for n in own_nodes(work.node):
+        if isinstance(n, ast.Assign) and isinstance(n.value, ast.Call) and call_name(n.value) == "slicer":
+            gs = guards_of(pm_of(work), n)
+            key = None
+            for t, polr in gs:
+                if isinstance(t, ast.Compare) and u(t.left) == "policy" and polr:
+                    key = t.comparators[0].value
+            feeds[key] = u(n.value.args[0]) if n.value.args else None
+    col.ob("G16", "S5", f"{wwhere}::slicer-input-by-policy", feeds == {"fixed": "feats", "ali": "alis", None: "refs"},
+           f"the slicer is fed {feeds}; expected feats for 'fixed', alis for 'ali', refs otherwise", wrel, work.line,
+           sample={str(k): v for k, v in feeds.items()})
+
+    # ---- S6 known-rank contradictions; return arity ----------------------------------------------------------------
+    for f in (sl, ch):
+        ra = analyse(f)
+        fw = f"{rel}::{f.qualname}"
+        seenn = set()
+        bad = []
+        for n, msg in ra.findings:
+            if id(n) in seenn:
+                continue
+            seenn.add(id(n))
+            bad.append((n, msg))
+        col.ob("G19", "S6", f"{fw}::dimension-within-known-rank", not bad,
+               (bad[0][1] + (f" (and {len(bad) - 1} more)" if len(bad) > 1 else "") +
+                " - this branch fails for every input that reaches it") if bad else "", rel,
+               bad[0][0].lineno if bad else f.line, sample=[m for _, m in bad] or f"{ra.known_sites} dimension uses within rank")
+        col.count(f"rank_known_sites[{f.name}]", ra.known_sites)
+        ar = set()
+        for n in own_nodes(f.node):
+            if isinstance(n, ast.Return) and n.value is not None:
+                ar.add(len(n.value.elts) if isinstance(n.value, ast.Tuple) else 1)
+        col.ob("G2", "S6", f"{fw}::return-arity", len(ar) == 1,
+               f"{f.name} returns tuples of different arity {sorted(ar)} on different paths: callers unpacking "
+               f"`slices, sources = ...` fail on the odd path", rel, f.line, sample=sorted(ar))
+    col.floor("rank_known_sites[slice_spect_data]", col.counts.get("rank_known_sites[slice_spect_data]", 0), 15)
+    plumbing(ctx, "S1")
+    return dict(
+        explanation=(
+            "Decides for C10: (S1) Module->functional forwarding, the three modules the chunk worker builds and its 17 "
+            "worker arguments; (S2) Policy/WindowType/PadMode literals == dispatch constants == argparse choices; (S3) "
+            "under not-retain the token boundaries (positions) are combined with the slice start (a position) by "
+            "subtraction [known finding F5: the tree adds]; (S4) containment vs overlap predicates in comparison normal "
+            "form against the documented ones; (S5) input/output basenames prefix+id+suffix, every saved chunk cut "
+            "with the length of its own chunker call into its own sub-directory, slicer input by policy; (S6) every "
+            "dimension-naming operation within the known rank on every branch [F11 repaired] and one return arity. NOT decided: that the arange/nonzero/index arithmetic yields the documented windows; "
+            "that the chunked directory validates."),
+        decided=["S1", "S2", "S3", "S4", "S5", "S6"],
+        not_decided=["window arithmetic equals the documented policy", "chunked directory is well-formed"],
+        assumptions=["documented predicates (class docstring of ChunkTokenSequencesBySlices) as oracle"],
+    )
+
+
+def pm_of(f):
+    pm = getattr(f, "_pm", None)
+    if pm is None:
+        pm = parent_map(f.node)
+        f._pm = pm
+    return pm
+
+
+def _mutants():
+    from selftest.mutate import Mutant as M
+    F = "_feats.py"
+    C = "command_line.py"
+    return [
+        M("gather-after-indexing-away", F, ".gather(1, (in_lens - 1).clamp_min_(0).view(N, 1))", ".select(1, 0).gather(1, (in_lens - 1).clamp_min_(0).view(N, 1))",
+          "dimension-within-known-rank"),
+        M("ends-gather-on-column", F, "ends.gather(1, (in_lens - 1)", "ends[..., 1].gather(1, (in_lens - 1)", "dimension-within-known-rank"),
+        M("size-dim-3", F, "if input.size(2) != 3:", "if input.size(3) != 3:", "dimension-within-known-rank"),
+        M("return-arity-three", F, "return (torch.empty(0, 2, dtype=torch.long, device=device), torch.empty(0, dtype=torch.long, device=device))",
+          "return (torch.empty(0, 2, dtype=torch.long, device=device), torch.empty(0, dtype=torch.long, device=device), torch.empty(0, dtype=torch.long, device=device))",
+          "return-arity"),
+        M("containment-to-overlap", F, "mask = mask & (slices[..., :1] <= refs[..., 1]) & (slices[..., 1:] >= refs[..., 2])",
+          "mask = mask & (slices[..., :1] <= refs[..., 2]) & (slices[..., 1:] >= refs[..., 1])", "containment-predicate"),
+        M("overlap-inclusive", F, "(slices[..., :1] < refs[..., 2]) & (slices[..., 1:] > refs[..., 1])",
+          "(slices[..., :1] <= refs[..., 2]) & (slices[..., 1:] > refs[..., 1])", "overlap-predicate"),
+        M("partial-branches-swapped", F, "if partial:\n        mask = mask & (slices[..., :1] < refs[..., 2])", "if not partial:\n        mask = mask & (slices[..., :1] < refs[..., 2])",
+          "predicate"),
+        M("shift-under-retain", F, "if not retain:\n        chunked[..., 1:]", "if retain:\n        chunked[..., 1:]", "boundary-shift::columns+guard"),
+        M("shift-token-column-too", F, "chunked[..., 1:] += slices[..., 0].view(N, 1, 1).expand(N, R, 2)", "chunked[..., 0:] += slices[..., 0].view(N, 1, 1).expand(N, R, 3)",
+          "boundary-shift::columns+guard"),
+        M("policy-arm-lost", F, "elif policy == 'ali':", "elif policy == 'alignment':", "G8/S2"),
+        M("choices-differ", C, "choices=['fixed', 'ali', 'ref']", "choices=['fixed', 'ali']", "choices(policy)"),
+        M("worker-valid-only-inverted", C, "SliceSpectData(policy, window_type, pad_mode is None, lobe_size)", "SliceSpectData(policy, window_type, pad_mode is not None, lobe_size)",
+          "SliceSpectData(valid_only"),
+        M("worker-partial-retain-swapped", C, "ChunkTokenSequencesBySlices(partial_tokens, retain_token_boundaries)", "ChunkTokenSequencesBySlices(retain_token_boundaries, partial_tokens)",
+          "ChunkTokenSequencesBySlices("),
+        M("refs-cut-with-feat-lens", C, "torch.save(refs[n, :ref_lens[n]], os.path.join(out_ref_dir, out_basename))", "torch.save(refs[n, :lens[n]], os.path.join(out_ref_dir, out_basename))",
+          "save(refs)"),
+        M("alis-into-ref-dir", C, "torch.save(alis[n, :lens[n]], os.path.join(out_ali_dir, out_basename))", "torch.save(alis[n, :lens[n]], os.path.join(out_ref_dir, out_basename))",
+          "save(alis)"),
+        M("out-basename-no-prefix", C, "out_basename = file_prefix + new_utt_id + file_suffix", "out_basename = new_utt_id + file_suffix", "out_basename=prefix+id+suffix"),
+        M("dispatch-args-swapped", C, "options.partial_tokens, options.retain_token_boundaries, options.quiet", "options.retain_token_boundaries, options.partial_tokens, options.quiet", "G1"),
+        M("twin:rename-mask", F, "chunked_lens", "kept", "", -1, twin=True),
+    ]
+
+
+def selftest(ctx: Ctx):
+    from selftest.mutate import run_selftest
+    return run_selftest("C10", ctx.pkg.repo, _mutants(), floor=14)
+
+
+MANIFEST = dict(
+    level_text=(
+        "Static analysis (no execution) of slice_spect_data, chunk_token_sequences_by_slices and the chunking "
+        "driver: a known-rank dataflow that finds dimension-naming operations outside the rank established by the "
+        "function's own guards (on branches no test takes, e.g. other_lens omitted), return-arity consistency, "
+        "position-kind checking of the boundary shift, comparison normal forms of the containment/overlap "
+        "predicates, enum/choices table agreement, and def-use pairing of each saved chunk with its own length. "
+        "Necessary conditions of C10; that the index arithmetic yields the documented windows is not decided."),
+    level_note="Trusted: python ast; torch rank semantics of the closed transformer set in rules/rank.py. F11 (gather on "
+               "a rank-1 column) was found and repaired; F5 (boundaries shifted by "
+               "+ slice start) is a known finding because tests/test_feats.py encodes the same arithmetic.",
+    technique="static analysis: known-rank abstract interpretation, kind checking of positions, comparison normal forms, literal-table agreement",
+    design_ref="DESIGN.md section 4 C10, section 3 G19/G14",
+)
